@@ -19,6 +19,12 @@
   C19.BUF   the fallback engine's receiver is created with the default capacity (like every other
             formula input).
   C19.TICK  once the fallback runs, every tick of fetch_next_with_fallback reads it.
+  C19.METRIC the formula generated for the fallback of a term reads the same metric (and builds the same quantity)
+            as the builder of the formula whose term it backs: the generator handed to FallbackFormulaMetricFetcher
+            is followed to its generate() and both builder configurations are compared.
+  C19.PAIR  the two places that decide which components back which meter agree: the device predicates under which
+            a meter's successors are its fallback == the device side of the (device, meter) pair table, and every
+            pair is the one the component graph defines (`is_X_meter` == METER whose successors are all `is_X`).
 
 LAZY / ERR are decided per scenario (fallback configured / running, received primary valid) on the CFG;
 roles are bound by dataflow (sa/props/_c06_util.py).
@@ -39,6 +45,10 @@ STEPS = "timeseries.formula_engine._formula_steps"
 MF = f"{STEPS}:MetricFetcher"
 FFM = "timeseries.formula_engine._formula_generators._fallback_formula_metric_fetcher"
 SYNC_HINT = "_synchronize_and_fetch_fallback"
+GEN_PKG = "timeseries.formula_engine._formula_generators"
+FG = f"{GEN_PKG}._formula_generator:FormulaGenerator"
+RFB = "timeseries.formula_engine._resampled_formula_builder:ResampledFormulaBuilder"
+GRAPH_MOD = "microgrid.component_graph"
 
 
 class SelInterp(HelperCalls, Interp):
@@ -795,6 +805,235 @@ def check_buf(run: Run, prog: Program) -> None:
               "is_running does not reflect whether start() has created the receiver", node=ir.node, file=ir.file)
 
 
+
+# ---------------------------------------------------------------------------------------------
+# fallback wiring at the construction sites (formula generators)
+def _self_callees(prog: Program, cls: Any, fn: Any, depth: int = 4) -> list[Any]:
+    """`fn` and the methods reached from it through `self.<m>(..)` calls, resolved on `cls` (so an inherited template
+    method sees the concrete class's hooks)."""
+    out, seen, todo = [], set(), [(fn, 0)]
+    while todo:
+        f, d = todo.pop()
+        if id(f.node) in seen:
+            continue
+        seen.add(id(f.node))
+        out.append(f)
+        if d >= depth:
+            continue
+        for c in find_calls(f.node, lambda c: isinstance(c.func, ast.Attribute) and isinstance(c.func.value, ast.Name) and c.func.value.id == "self"):
+            m = prog.resolve_method(cls, c.func.attr)  # type: ignore[union-attr]
+            if m is not None:
+                todo.append((m, d + 1))
+    return out
+
+
+def _ctor_params(prog: Program, cls: Any) -> list[str]:
+    init = prog.resolve_method(cls, "__init__")
+    return [p for p in init.params if p != "self"] if init is not None else []
+
+
+def builder_configs(prog: Program, cls: Any) -> list[tuple[str, str, ast.AST, Any]]:
+    """(metric, create method, node, function) of every ResampledFormulaBuilder the formula of generator class `cls`
+    is built with: the constructor calls on the paths of cls.generate(), an argument that is a parameter of a private
+    helper (`_get_builder(name, metric, create)`) followed back to the helper's call site."""
+    from ..engine.normalize import positional
+
+    rfb = prog.cls(RFB)
+    rparams = _ctor_params(prog, rfb)
+    gen = prog.resolve_method(cls, "generate")
+    if gen is None:
+        raise AnalysisError(f"{cls.qual}: no generate()")
+    fns = _self_callees(prog, cls, gen)
+    out: list[tuple[str, str, ast.AST, Any]] = []
+
+    def text(fl: Flow, e: ast.AST | None, nid: int, callers: list[tuple[Any, ast.Call]], fuel: int = 4) -> list[str]:
+        if e is None:
+            return ["<missing>"]
+        res: list[str] = []
+        for o in fl.origin(e, nid):
+            if o.kind == "expr" and o.node is not None:
+                res.append(u(o.node))
+            elif o.kind == "param" and fuel > 0 and callers:
+                for cf, cc in callers:
+                    cfl = Flow(prog, cf)
+                    hp = [p for p in fl.fn.params if p != "self"]
+                    arg = positional(cc, hp).get(o.name)
+                    if arg is None:
+                        res.append(f"<default of {o.name}>")
+                    else:
+                        res += text(cfl, arg, cfl.node_of(cc), [], fuel - 1)
+            else:
+                res.append(f"<{o.text()}>")
+        return res or ["<unknown>"]
+
+    for f in fns:
+        ctor = find_calls(f.node, lambda c: isinstance(c.func, ast.Name) and prog.resolve_name(f.module, c.func.id) is rfb)
+        if not ctor:
+            continue
+        fl = Flow(prog, f)
+        callers = [(g, c) for g in fns if g is not f for c in find_calls(
+            g.node, lambda c: isinstance(c.func, ast.Attribute) and c.func.attr == f.name and u(c.func.value) == "self")]
+        if f is not gen and f.name != "generate" and not callers:
+            continue
+        for c in ctor:
+            try:
+                nid = fl.node_of(c)
+            except AnalysisError:
+                continue
+            a = positional(c, rparams)
+            for m in text(fl, a.get("metric_id"), nid, callers):
+                for cm in text(fl, a.get("create_method"), nid, callers):
+                    out.append((m, cm, c, f))
+    return out
+
+
+def check_metric(run: Run, prog: Program) -> None:
+    """C19.METRIC ("the term's value is taken from the sum of its fallback components"): the generator wrapped in a
+    FallbackFormulaMetricFetcher builds its formula over the same metric, into the same quantity, as the formula
+    whose term it backs."""
+    ffm = prog.cls(f"{FFM}:FallbackFormulaMetricFetcher")
+    sites = 0
+    for fn in list(prog.all_functions()):
+        if not fn.module.name.startswith("timeseries.formula_engine") or fn.cls is None:
+            continue
+        ctors = find_calls(fn.node, lambda c: isinstance(c.func, (ast.Name, ast.Subscript)) and prog.resolve_name(
+            fn.module, u(c.func).split("[")[0]) is ffm)
+        if not ctors:
+            continue
+        fl = Flow(prog, fn)
+        for c in ctors:
+            sites += 1
+            run.analysed(fn.qual)
+            arg = (list(c.args) + [k.value for k in c.keywords])[0] if (c.args or c.keywords) else None
+            gens = set()
+            if arg is not None:
+                for o in fl.origin(arg, fl.node_of(c)):
+                    k = o.call()
+                    tgt = prog.resolve_name(o.flow.fn.module, u(k.func).split("[")[0]) if k is not None else None
+                    gens.add(tgt.qual if hasattr(tgt, "methods") else None)
+            if not gens or None in gens:
+                raise AnalysisError(f"{fn.qual}: cannot tell which generator class `{u(c)}` wraps")
+            users = [k for k in [fn.cls] + prog.subclasses(fn.cls)
+                     if (lambda g: g is not None and not any(u(d) == "abstractmethod" for d in g.node.decorator_list))(prog.resolve_method(k, "generate"))]
+            for gq in sorted(gens):
+                gcls = prog.cls(gq)
+                fb_cfg = {(m, cm) for m, cm, _n, _f in builder_configs(prog, gcls)}
+                for user in users:
+                    prim = builder_configs(prog, user)
+                    prim_cfg = {(m, cm) for m, cm, _n, _f in prim}
+                    same = user is gcls or (bool(prim_cfg) and prim_cfg == fb_cfg and not any("<" in x for cfg_ in prim_cfg for x in cfg_))
+                    culprit = next((n for _m, _cm, n, _f in builder_configs(prog, gcls)), c)
+                    run.check(same, "C19.METRIC", f"{gcls.qual}.generate", f"fallback generator of {user.name}: metric / quantity",
+                              f"the terms of `{user.name}` are built over {sorted(prim_cfg)} but the formula generated for their fallback "
+                              f"(`{gcls.name}`, wrapped in FallbackFormulaMetricFetcher by {fn.qual}) is built over {sorted(fb_cfg)}: as soon "
+                              "as the primary meter is missing the term's value is taken from ANOTHER quantity of the fallback components "
+                              "(active instead of reactive power, a current, ...) or converted with another unit constructor, and relabelled "
+                              "-- the output is wrong exactly while the fallback is in use",
+                              node=culprit, file=gcls.module.rel,
+                              instance=f"{user.qual}: fallback generated by {gcls.name} over the same metric and quantity")
+    if sites < 3:
+        raise AnalysisError(f"C19.METRIC: only {sites} FallbackFormulaMetricFetcher(...) construction sites found")
+
+
+def graph_meter_table(prog: Program) -> tuple[dict[str, str], set[str]]:
+    """({meter predicate: device predicate}, all component predicates) read off the concrete component graph: `is_X_meter(c)`
+    is the method that tests `c.category == METER` and applies `self.is_X` to the successors (in line or through a
+    private helper that is handed the predicate)."""
+    table: dict[str, str] = {}
+    preds: set[str] = set()
+    for cls in prog.module(GRAPH_MOD).classes.values():
+        for m in cls.methods.values():
+            ps = [p for p in m.params if p != "self"]
+            if len(ps) != 1 or any(u(d) == "abstractmethod" for d in m.node.decorator_list):
+                continue
+            if m.name.startswith("is_"):
+                preds.add(m.name)
+            # the body (or the private helper it hands its work to) tests the METER category and refers to exactly one
+            # other component predicate: called on the successors, or passed on as the predicate to apply to them
+            scope = [m.node] + [cls.methods[c.func.attr].node for c in find_calls(  # type: ignore[union-attr]
+                m.node, lambda c: isinstance(c.func, ast.Attribute) and u(c.func.value) == "self" and c.func.attr.startswith("_")
+                and c.func.attr in cls.methods)]
+            is_meter = any(isinstance(x, ast.Compare) and "ComponentCategory.METER" in u(x) for nd in scope for x in ast.walk(nd))
+            inner = sorted({x.attr for x in ast.walk(m.node) if isinstance(x, ast.Attribute) and isinstance(x.ctx, ast.Load)
+                            and u(x.value) == "self" and x.attr.startswith("is_") and x.attr not in ("is_grid_meter", m.name)
+                            and x.attr in cls.methods})
+            if is_meter and len(inner) == 1:
+                table[m.name] = inner[0]
+    if len(table) < 4:
+        raise AnalysisError(f"{GRAPH_MOD}: only {len(table)} `meter whose successors are all <device>` predicates found")
+    return table, preds
+
+
+def pairing_sites(prog: Program) -> tuple[Any, list[tuple[str, str, ast.AST]], Any, dict[str, ast.AST]]:
+    """(pair function, [(device predicate, meter predicate, node)], meter function, {predicate applied to the meter's successors: node}),
+    both functions bound by role among FormulaGenerator's methods."""
+    table, preds = graph_meter_table(prog)
+    cls = prog.cls(FG)
+    pair_fn, pairs = None, []
+    for m in cls.methods.values():
+        found = []
+        for b in (x for x in ast.walk(m.node) if isinstance(x, ast.BoolOp) and isinstance(x.op, ast.And)):
+            calls = [v for v in b.values if isinstance(v, ast.Call) and isinstance(v.func, ast.Attribute) and v.func.attr in preds and len(v.args) == 1]
+            ms = [v for v in calls if v.func.attr in table]  # type: ignore[union-attr]
+            ds = [v for v in calls if v.func.attr not in table]  # type: ignore[union-attr]
+            if ms and ds:
+                if len(ms) != 1 or len(ds) != 1 or len(calls) != len(b.values):
+                    raise AnalysisError(f"{m.qual}: `{u(b)}` is not a (device, meter) pair")
+                found.append((ds[0].func.attr, ms[0].func.attr, b, u(ds[0].args[0]), u(ms[0].args[0])))  # type: ignore[union-attr]
+        if found:
+            if pair_fn is not None:
+                raise AnalysisError(f"{cls.qual}: two methods pair devices with meters ({pair_fn.name}, {m.name})")
+            pair_fn = m
+            if len({(d, p) for _a, _b, _n, d, p in found}) != 1 or found[0][3] == found[0][4]:
+                raise AnalysisError(f"{m.qual}: the pairs do not test one fallback candidate and one primary candidate")
+            pairs = [(a, b_, n) for a, b_, n, _d, _p in found]
+    if pair_fn is None:
+        raise AnalysisError(f"{cls.qual}: no method pairs a device predicate with a meter predicate")
+    meter_fn, applied = None, {}
+    for m in cls.methods.values():
+        if m is pair_fn:
+            continue
+        refs = {x.attr: x for x in ast.walk(m.node) if isinstance(x, ast.Attribute) and x.attr in preds and isinstance(x.ctx, ast.Load)
+                and not (x.attr == "is_grid_meter")}
+        succ = find_calls(m.node, lambda c: isinstance(c.func, ast.Attribute) and c.func.attr == "successors")
+        alls = find_calls(m.node, lambda c: u(c.func) == "all")
+        if refs and succ and alls:
+            if meter_fn is not None:
+                raise AnalysisError(f"{cls.qual}: two methods select a meter's fallback components ({meter_fn.name}, {m.name})")
+            meter_fn, applied = m, refs
+    if meter_fn is None:
+        raise AnalysisError(f"{cls.qual}: no method selects the fallback components of a meter (all(<predicate>(s) for s in successors))")
+    return pair_fn, pairs, meter_fn, applied
+
+
+def check_pair(run: Run, prog: Program) -> None:
+    """C19.PAIR: a term gets its fallback through two cooperating decisions -- METER term: its successors, if they are
+    all of one kind; device term: its single predecessor, if that is the meter of its kind.  They must describe the
+    same (device kind, meter kind) relation, and that relation must be the component graph's own."""
+    table, _preds = graph_meter_table(prog)
+    pair_fn, pairs, meter_fn, applied = pairing_sites(prog)
+    run.analysed(pair_fn.qual)
+    run.analysed(meter_fn.qual)
+    for d, m, node in pairs:
+        run.check(table.get(m) == d, "C19.PAIR", pair_fn.qual, f"{d}(fallback) and {m}(primary)",
+                  f"`{d}` components are paired with `{m}` as their primary, but the component graph defines `{m}` as the METER whose "
+                  f"successors are all `{table.get(m)}`: the fallback of that meter's term would be components the meter does not measure",
+                  node=node, file=pair_fn.file, instance=f"{pair_fn.qual}: ({d}, {m}) is the graph's pair")
+    dev = {d for d, _m, _n in pairs}
+    got = set(applied)
+    extra, missing = sorted(got - dev), sorted(dev - got)
+    node = applied[extra[0]] if extra else meter_fn.node
+    run.check(not extra and not missing, "C19.PAIR", meter_fn.qual, "device kinds backing a meter == device side of the pair table",
+              f"{meter_fn.name}() accepts a meter's successors as its fallback when they are all {sorted(got)}, whereas "
+              f"{pair_fn.name}() pairs the device kinds {sorted(dev)} with their meters: "
+              + (f"meters in front of {missing} get no fallback (the term stays None while its fallback components are valid)" if missing else "")
+              + ("; " if missing and extra else "")
+              + (f"{extra} is not a fallback device kind" + (" (it is a *meter* predicate: successors of a meter are tested for being meters)"
+                                                            if any(x in table for x in extra) else "") if extra else "")
+              + " -- the two sites must name the same kinds (a neighbouring, equally typed graph predicate is the typical slip)",
+              node=node, file=meter_fn.file)
+
+
 def build_controls(prog: Program) -> list[tuple[str, str, str, str, str]]:
     """Seeded in-memory controls, cut out of the live source at structurally located anchors (so they
     survive renamed locals, changed log texts, introduced locals): each breaks one obligation."""
@@ -894,8 +1133,49 @@ def build_controls(prog: Program) -> list[tuple[str, str, str, str, str]]:
             add("re-aligned only when three timestamps differ", ev_mod, src_patch(
                 m_.module, c_.lineno, c_.end_lineno or c_.lineno, lambda t, txt=txt: t.replace(txt, txt[:-1] + "2", 1)), "C19.ESYNC")
             break
+    # METRIC: a fallback generator that is not the generator of the formula it backs reads another metric
+    ffm = prog.cls(f"{FFM}:FallbackFormulaMetricFetcher")
+    done_m = False
+    for fn in prog.all_functions():
+        if done_m or fn.cls is None or not fn.module.name.startswith(GEN_PKG):
+            continue
+        for c in find_calls(fn.node, lambda c: isinstance(c.func, ast.Name) and prog.resolve_name(fn.module, c.func.id) is ffm):
+            fl = Flow(prog, fn)
+            for o in fl.origin(c.args[0], fl.node_of(c)) if c.args else []:
+                k = o.call()
+                g = prog.resolve_name(fn.module, u(k.func).split("[")[0]) if k is not None else None
+                if g is None or not hasattr(g, "methods") or g is fn.cls or done_m:
+                    continue
+                for m_txt, _cm, node, f in builder_configs(prog, g):
+                    if m_txt.startswith("ComponentMetricId."):
+                        other = "ComponentMetricId.VOLTAGE_PHASE_1"
+                        tgt = next((a for a in ast.walk(node) if u(a) == m_txt), None)
+                        holder = f
+                        if tgt is None:  # the literal sits at the helper's call site
+                            for h in g.methods.values():
+                                tgt = next((a for a in ast.walk(h.node) if isinstance(a, ast.Attribute) and u(a) == m_txt), None)
+                                if tgt is not None:
+                                    holder = h
+                                    break
+                        if tgt is not None:
+                            add("fallback formula reads another metric", holder.module.name, stmt_patch(
+                                holder, tgt, lambda t, m_txt=m_txt, other=other: t.replace(m_txt, other, 1)), "C19.METRIC")
+                            done_m = True
+                            break
+    # PAIR: a neighbouring graph predicate in the selection of a meter's fallback components
+    try:
+        table, _p = graph_meter_table(prog)
+        _pf, prs, mf, applied = pairing_sites(prog)
+        for d, m, _n in prs:
+            if d in applied:
+                node = applied[d]
+                add("meter fallback selected by a meter predicate", mf.module.name, stmt_patch(
+                    mf, node, lambda t, d=d, m=m: t.replace(f".{d}", f".{m}", 1)), "C19.PAIR")
+                break
+    except AnalysisError:
+        pass
     if len(out) < 4:
-        raise AnalysisError(f"C19: only {len(out)} of 11 seeded controls could be derived from the source "
+        raise AnalysisError(f"C19: only {len(out)} of 13 seeded controls could be derived from the source "
                             f"({[o[0] for o in out]})")
     return out
 
@@ -908,6 +1188,8 @@ def run_rules(run: Run, prog: Program) -> None:
     check_esync(run, prog)
     check_keep(run, prog)
     check_buf(run, prog)
+    check_metric(run, prog)
+    check_pair(run, prog)
 
 
 def check(run: Run, prog: Program, tier: str) -> str:
@@ -922,6 +1204,10 @@ def check(run: Run, prog: Program, tier: str) -> str:
     run.rule("C19.ESYNC", "a fallback sample is handed to a round only after its timestamp was related to the round (synchronisation "
              "routine, or a read of the synchronisation state / a timestamp comparison on the path)")
     run.rule("C19.BUF", "fallback receiver has the default capacity")
+    run.rule("C19.METRIC", "the generator wrapped as a term's fallback builds its formula over the same metric id and quantity "
+             "constructor as the formula whose term it backs")
+    run.rule("C19.PAIR", "which components back which meter: the selection of a meter's fallback components and the (device, meter) "
+             "pair table name the same device kinds, and each pair is the component graph's own definition of that meter kind")
     run_rules(run, prog)
     run.floor("C19.SEL", 10)
     run.floor("C19.TICK", 4)
@@ -929,6 +1215,8 @@ def check(run: Run, prog: Program, tier: str) -> str:
     run.floor("C19.ERR", 5)
     run.floor("C19.LAZY", 7)
     run.floor("C19.SYNC", 8)
+    run.floor("C19.METRIC", 3)
+    run.floor("C19.PAIR", 5)
     from ..engine.controls import run_controls
 
     run_controls(run, [] if run.violations else build_controls(prog), run_rules, tier)
